@@ -1,5 +1,6 @@
 import ParryModel.Field
 import ParryModel.C07.Model
+import ParryModel.C07.Link
 /-!
 # C07 traversal theorems: pruning never loses an answer — for every tree shape and size
 
@@ -524,5 +525,80 @@ example : LB dist20 (fun b _ => dist20 b) exTree := by
   simp [exTree, LB, LBList, leavesList, leaves, dist20]
 example : bestFirst ltb dist20 (fun b _ => dist20 b) exTree = some (some (2, 4)) := by decide
 end examples
+
+/-! ## the lower bound behind the distance pruning of the composite-shape visitors -/
+section pruning
+open Model
+variable {K : Type} [Field K] [LinearOrder K] [IsStrictOrderedRing K] (sq : K → K)
+
+/-- per axis: if `lo ≤ x ≤ hi` then the distance `max(lo, -hi, 0)` from the origin to `[lo, hi]` is at most `|x|`
+(squared form) -/
+theorem axis_lower_bound (lo hi x : K) (h1 : lo ≤ x) (h2 : x ≤ hi) :
+    max (max lo (-hi)) 0 * max (max lo (-hi)) 0 ≤ x * x := by
+  rcases le_total 0 lo with hlo | hlo
+  · have e : max (max lo (-hi)) 0 = lo := by
+      have : -hi ≤ lo := by linarith
+      rw [max_eq_left this, max_eq_left hlo]
+    rw [e]; nlinarith
+  · rcases le_total hi 0 with hhi | hhi
+    · have e : max (max lo (-hi)) 0 = -hi := by
+        have : lo ≤ -hi := by linarith
+        rw [max_eq_right this, max_eq_left (by linarith)]
+      rw [e]; nlinarith
+    · have e : max (max lo (-hi)) 0 = 0 := by
+        have : max lo (-hi) ≤ 0 := max_le hlo (by linarith)
+        rw [max_eq_right this]
+      rw [e]; nlinarith [mul_self_nonneg x]
+
+/-- membership of a point in a box (coordinate-wise) -/
+def InBox (b : Aabb3 K) (p : V3 K) : Prop :=
+  (b.mins.x ≤ p.x ∧ p.x ≤ b.maxs.x) ∧ (b.mins.y ≤ p.y ∧ p.y ≤ b.maxs.y) ∧ (b.mins.z ≤ p.z ∧ p.z ≤ b.maxs.z)
+
+/-- **the pruning bound of the composite distance visitors is a lower bound (squared form)**: for a BVH lane box `bv`
+and the box `[c - h, c + h]` of the other shape (both in the frame of the composite), the Minkowski-sum box built by the
+visitor (`shift = -c`, `margin = h`) is at squared distance at most `|p1 - p2|²` from the origin, for every `p1` in the
+lane box and every `p2` in the other box.  Hence a lane whose bound is `≥ best` cannot contain a part closer than
+`best`. -/
+theorem msum_lower_bound_sq (bv : Aabb3 K) (c h : V3 K) (p1 p2 : V3 K) :
+    letI := fieldNum K sq
+    InBox bv p1 → InBox ⟨c.sub h, c.add h⟩ p2 →
+      (originShift (msumBox bv c.neg h)).normSq ≤ (p1.sub p2).normSq := by
+  letI := fieldNum K sq
+  rintro ⟨⟨a1, a2⟩, ⟨a3, a4⟩, ⟨a5, a6⟩⟩ ⟨⟨b1, b2⟩, ⟨b3, b4⟩, ⟨b5, b6⟩⟩
+  simp only [V3.sub, V3.add] at b1 b2 b3 b4 b5 b6
+  simp only [originShift, msumBox, V3.normSq, V3.dot, V3.sup, V3.add, V3.neg, V3.sub, V3.zero, fieldNum_nmax]
+  have hx := axis_lower_bound (bv.mins.x + -c.x + -h.x) (bv.maxs.x + -c.x + h.x) (p1.x - p2.x) (by linarith) (by linarith)
+  have hy := axis_lower_bound (bv.mins.y + -c.y + -h.y) (bv.maxs.y + -c.y + h.y) (p1.y - p2.y) (by linarith) (by linarith)
+  have hz := axis_lower_bound (bv.mins.z + -c.z + -h.z) (bv.maxs.z + -c.z + h.z) (p1.z - p2.z) (by linarith) (by linarith)
+  linarith
+
+/-- the same with the square roots the code takes: `distance_to_origin(msum) ≤ |p1 - p2|` -/
+theorem msum_lower_bound (hs : LawfulSqrt sq) (bv : Aabb3 K) (c h : V3 K) (p1 p2 : V3 K) :
+    letI := fieldNum K sq
+    InBox bv p1 → InBox ⟨c.sub h, c.add h⟩ p2 →
+      distToOrigin (msumBox bv c.neg h) ≤ (p1.sub p2).norm := by
+  letI := fieldNum K sq
+  intro h1 h2
+  have hle := msum_lower_bound_sq sq bv c h p1 p2 h1 h2
+  have hn1 : 0 ≤ (originShift (msumBox bv c.neg h)).normSq := by
+    simp only [V3.normSq, V3.dot]; nlinarith [mul_self_nonneg (originShift (msumBox bv c.neg h)).x, mul_self_nonneg (originShift (msumBox bv c.neg h)).y, mul_self_nonneg (originShift (msumBox bv c.neg h)).z]
+  have hn2 : 0 ≤ (p1.sub p2).normSq := le_trans hn1 hle
+  simp only [distToOrigin, V3.norm]
+  show sq _ ≤ sq _
+  have ha := hs.nonneg _ hn1
+  have hb := hs.nonneg _ hn2
+  have ea := hs.sq_mul _ hn1
+  have eb := hs.sq_mul _ hn2
+  by_contra hc
+  push Not at hc
+  nlinarith
+
+/-- the slipped sign (`mins: bv.mins + shift + margin`) is NOT a lower bound: lane box `[11.5, 12.5]`, other box
+`[10, 11.2]` (centre 10.6, half-extent 0.6): the true gap is 0.3, the correct bound is 0.3, the slipped bound is 1.5 -/
+example : (11.5 - 11.2 : ℚ) = 0.3 ∧ max (max (11.5 + -10.6 + -0.6 : ℚ) (-(12.5 + -10.6 + 0.6))) 0 = 0.3 ∧
+    max (max (11.5 + -10.6 + 0.6 : ℚ) (-(12.5 + -10.6 + 0.6))) 0 = 1.5 := by
+  refine ⟨by norm_num, ?_, ?_⟩ <;> norm_num
+
+end pruning
 
 end C07
